@@ -63,13 +63,13 @@ def cases(tier):
         full_depth = 2 if tier == "quick" else 3
         for st in range(nstart):
             for first in range(len(ops)):
-                out.append({"driver": name, "start": st, "first": first, "depth": full_depth, "group": None,
+                out.append({"driver": name, "start": st, "prefix": [first], "depth": full_depth, "group": None,
                             "masks": "all" if full_depth <= 2 else "three", "label": "%s:%s" % (name, ops[first][0])})
         gdepth = 3 if tier == "quick" else 4
         for gname, slots in sorted(drv.GROUPS.items()):
             gops = [i for i, (s, v) in enumerate(ops) if s in slots]
             for first in gops:
-                out.append({"driver": name, "start": 0, "first": first, "depth": gdepth, "group": gname, "exact_depth": True,
+                out.append({"driver": name, "start": 0, "prefix": [first], "depth": gdepth, "group": gname, "exact_depth": True,
                             "masks": "two", "label": "%s:%s:%s" % (name, gname, ops[first][0])})
     return out
 
@@ -179,51 +179,99 @@ def _masks(kind, k):
     return sorted({0, (1 << k) - 1, 1 << (k - 1)})
 
 
+def _allowed(drv, ops, case):
+    if case.get("group"):
+        return [i for i, (s, v) in enumerate(ops) if s in drv.GROUPS[case["group"]]]
+    return list(range(len(ops)))
+
+
+def _case_histories(drv, ops, case):
+    """All (op index tuple, mask) of a case: sequences that start with case['prefix'], of the lengths the case
+    covers; a case may also pin a single sequence ('only') and a single mask ('mask')."""
+    prefix = tuple(case["prefix"])
+    depth = case["depth"]
+    if case.get("only"):
+        seqs = [prefix]
+    else:
+        allowed = _allowed(drv, ops, case)
+        lengths = [depth] if case.get("exact_depth") else list(range(max(1, len(prefix)), depth + 1))
+        seqs = []
+        for k in lengths:
+            if k < len(prefix):
+                continue
+            for rest in itertools.product(allowed, repeat=k - len(prefix)):
+                seqs.append(prefix + rest)
+    for idxs in seqs:
+        ms = [case["mask"]] if case.get("mask") is not None else _masks(case["masks"], len(idxs))
+        for mask in ms:
+            yield idxs, mask
+
+
+def split_case(case):
+    """Smaller cases covering exactly the same histories (used by the runner when a batch crashed)."""
+    drv = _drv(case["driver"])
+    ops = _ops(drv)
+    hs = list(_case_histories(drv, ops, case))
+    if len(hs) <= 1:
+        return []
+    base = {k: case[k] for k in ("driver", "start", "depth", "group", "masks") if k in case}
+    prefix = list(case["prefix"])
+    out = []
+    if case.get("only"):
+        for idxs, mask in hs:
+            out.append(dict(base, prefix=list(idxs), only=True, mask=mask, label=_hist_label(case["driver"], [ops[i] for i in idxs], mask)))
+        return out
+    seqs = sorted({idxs for idxs, _ in hs})
+    if any(len(q) == len(prefix) for q in seqs):
+        out.append(dict(base, prefix=prefix, only=True, label=case["label"]))
+    nxt = sorted({q[len(prefix)] for q in seqs if len(q) > len(prefix)})
+    for j in nxt:
+        c = dict(base, prefix=prefix + [j], label=case["label"])
+        if case.get("exact_depth"):
+            c["exact_depth"] = True
+        out.append(c)
+    return out
+
+
+def _hist_label(name, seq, mask):
+    return "%s:%s" % (name, ",".join(("obs>" if (mask >> i) & 1 else "") + s for i, (s, v) in enumerate(seq)))
+
+
 def run_case(case):
     drv = _drv(case["driver"])
     ops = _ops(drv)
     name = case["driver"]
     st = case["start"]
-    depth = case["depth"]
-    if case.get("group"):
-        allowed = [i for i, (s, v) in enumerate(ops) if s in drv.GROUPS[case["group"]]]
-    else:
-        allowed = list(range(len(ops)))
-    lengths = [depth] if case.get("exact_depth") else list(range(1, depth + 1))
     stats = {"transitions": 0, "states": set()}
     viol, seen_sigs = [], set()
     n = 0
     nontrivial = []
     classes = []
-    outcome = []
-    for k in lengths:
-        for rest in itertools.product(allowed, repeat=k - 1):
-            idxs = (case["first"],) + rest
-            seq = [ops[i] for i in idxs]
-            for mask in _masks(case["masks"], k):
-                r = run_history(drv, st, seq, mask, stats)
-                if r is None:
-                    continue
-                n += 1
-                if r["nontrivial"]:
-                    nontrivial.append((name, st, idxs, mask))
-                if r["fail"]:
-                    mseq, mmask, mres = minimise(drv, st, seq, mask)
-                    sig = signature(name, mseq, mmask, mres["fail"])
-                    if sig not in seen_sigs:
-                        seen_sigs.add(sig)
-                        viol.append({
-                            "sig": sig,
-                            "what": "history (start %d) %s, observation mask %s: live scene differs from a scene built from scratch in the final configuration"
-                                    % (st, [list(x) for x in mseq], bin(mmask)),
-                            "expected": {"fresh": _trim(mres.get("ref"), mres.get("bad"))} if mres["fail"][0] == "differs" else "operation supported in this state (the final configuration builds from scratch)",
-                            "observed": {"live": _trim(mres.get("live"), mres.get("bad"))} if mres["fail"][0] == "differs" else list(mres["fail"]),
-                            "minimal": {"start": st, "seq": [list(x) for x in mseq], "mask": mmask},
-                        })
+    for idxs, mask in _case_histories(drv, ops, case):
+        seq = [ops[i] for i in idxs]
+        r = run_history(drv, st, seq, mask, stats)
+        if r is None:
+            continue
+        n += 1
+        if r["nontrivial"]:
+            nontrivial.append((name, st, idxs, mask))
+        if r["fail"]:
+            mseq, mmask, mres = minimise(drv, st, seq, mask)
+            sig = signature(name, mseq, mmask, mres["fail"])
+            if sig not in seen_sigs:
+                seen_sigs.add(sig)
+                viol.append({
+                    "sig": sig,
+                    "what": "history (start %d) %s, observation mask %s: live scene differs from a scene built from scratch in the final configuration"
+                            % (st, [list(x) for x in mseq], bin(mmask)),
+                    "expected": {"fresh": _trim(mres.get("ref"), mres.get("bad"))} if mres["fail"][0] == "differs" else "operation supported in this state (the final configuration builds from scratch)",
+                    "observed": {"live": _trim(mres.get("live"), mres.get("bad"))} if mres["fail"][0] == "differs" else list(mres["fail"]),
+                    "minimal": {"start": st, "seq": [list(x) for x in mseq], "mask": mmask},
+                })
     classes += [name + ":history"] * (1 if n else 0)
     if nontrivial:
         classes.append(name + ":op-after-observe-mattered")
-    return {"viol": viol, "classes": classes, "n": max(n, 1), "outcome": (name, st, case["first"], n, len(nontrivial), sorted(seen_sigs)),
+    return {"viol": viol, "classes": classes, "n": max(n, 1), "outcome": (name, st, tuple(case["prefix"]), n, len(nontrivial), sorted(seen_sigs)),
             "states": stats["states"], "transitions": stats["transitions"], "nontrivial": nontrivial}
 
 
